@@ -55,7 +55,8 @@ type TLCResult struct {
 var reStates = regexp.MustCompile(`^(\d+) states generated, (\d+) distinct states found`)
 var reSimStates = regexp.MustCompile(`^The number of states generated: (\d+)`)
 var reInv = regexp.MustCompile(`^Error: Invariant (\S+) is violated`)
-var reProp = regexp.MustCompile(`^Error: (Action|Temporal) propert`)
+var rePost = regexp.MustCompile(`^Error: Postcondition (\S+)`)
+var reProp =regexp.MustCompile(`^Error: (Action|Temporal) propert`)
 var reZero = regexp.MustCompile(`^\s*(\|*)?line \d+, col \d+ to line \d+, col \d+ of module (\w+): 0$`)
 
 // TLC runs the model checker in a scratch directory that is removed afterwards.
@@ -163,6 +164,8 @@ func (c *Ctx) TLC(o TLCOpts) (*TLCResult, error) {
 				res.Generated, _ = strconv.ParseInt(m[1], 10, 64)
 				res.Distinct = res.Generated
 			} else if m := reInv.FindStringSubmatch(l); m != nil {
+				res.Violated = m[1]
+			} else if m := rePost.FindStringSubmatch(l); m != nil {
 				res.Violated = m[1]
 			} else if reProp.MatchString(l) {
 				res.Violated = "property"
